@@ -22,7 +22,45 @@ SEG_ID = {s: i + 1 for i, s in enumerate(SEGMENTS)}
 
 
 class InjectedFault(OSError):
-    pass
+    in_observer = False          # raised from a read issued by a resource observer
+
+
+class ObserverFailure(Exception):
+    """raised by the harness's own resource observer"""
+
+
+class CountingObserver:
+    """A project resource observer (registered after rope's own): counts the notifications that
+    _ResourceOperations sends after each successful primitive and raises during the `at`-th."""
+
+    def __init__(self):
+        self.n = 0
+        self.at = None
+
+    def reset(self, at=None):
+        self.n = 0
+        self.at = at
+
+    def _note(self):
+        i = self.n
+        self.n += 1
+        if self.at is not None and i == self.at:
+            raise ObserverFailure("observer raised at notification %d" % i)
+
+    def resource_changed(self, resource):
+        self._note()
+
+    def resource_moved(self, resource, new_resource):
+        self._note()
+
+    def resource_created(self, resource):
+        self._note()
+
+    def resource_removed(self, resource):
+        self._note()
+
+    def validate(self, resource):
+        pass
 
 
 def _find_call_frame(start_depth=2, limit=10):
@@ -51,10 +89,14 @@ class FaultyFS:
     def __init__(self):
         from rope.base.fscommands import FileSystemCommands
         self.real = FileSystemCommands()
+        self.counter = None
         self.reset()
 
-    def reset(self, armed=None, op=None, obs_armed=None):
+    def reset(self, armed=None, op=None, obs_armed=None, partial=False):
         self.armed = armed
+        self.partial = partial        # the armed call, if a write, truncates the file before raising
+        self.truncated = False
+        self.fired_obs_index = None   # notifications counted when an observer-issued read was failed
         self.obs_armed = obs_armed    # index of the observer-issued read that raises (probe stream only)
         self.fired_in_observer = False
         self.op = op              # 'do' | 'undo' | 'redo' | None (setup: nothing recorded)
@@ -77,7 +119,7 @@ class FaultyFS:
         forward = not isinstance(js, taskhandle.NullJobSet)
         return frame.f_locals.get("self"), meth, forward
 
-    def _counted(self, name, reversible, thunk):
+    def _counted(self, name, reversible, thunk, partial_path=None):
         chg, meth, forward = self._context()
         if forward is None:
             self.unknown_phase += 1
@@ -86,6 +128,12 @@ class FaultyFS:
         if self.armed is not None and i == self.armed:
             self.fired = True
             self.log.append((name, forward, "fault"))
+            if self.partial and name == "write" and partial_path is not None:
+                try:
+                    open(partial_path, "wb").close()     # what open(path, "wb") has done before write() fails
+                    self.truncated = True
+                except OSError:
+                    pass
             raise InjectedFault("injected fault at primitive call %d (%s)" % (i, name))
         rev = None
         if forward and self.op is not None:
@@ -146,7 +194,7 @@ class FaultyFS:
             if isinstance(expect, str):
                 expect = expect.encode("utf-8")
             return cur == expect
-        return self._counted("write", reversible, lambda: self.real.write(path, data))
+        return self._counted("write", reversible, lambda: self.real.write(path, data), partial_path=path)
 
     def read(self, path):
         f = sys._getframe(1)
@@ -183,7 +231,10 @@ class FaultyFS:
             if self.obs_armed is not None and i == self.obs_armed:
                 self.fired = True
                 self.fired_in_observer = True
-                raise InjectedFault("injected fault at observer read %d" % i)
+                self.fired_obs_index = self.counter.n if self.counter is not None else None
+                e = InjectedFault("injected fault at observer read %d" % i)
+                e.in_observer = True
+                raise e
             return self.real.read(path)
         return self._counted("read", lambda c, m: True, lambda: self.real.read(path))
 
@@ -309,7 +360,9 @@ def exc_codes(exc):
     seen = 0
     while e is not None and seen < 30:
         seen += 1
-        if isinstance(e, InjectedFault):
+        if isinstance(e, ObserverFailure) or (isinstance(e, InjectedFault) and e.in_observer):
+            codes.append(9)
+        elif isinstance(e, InjectedFault):
             codes.append(1)
         elif isinstance(e, OSError):
             codes.append(2)
@@ -344,8 +397,9 @@ def observer_raised(exc):
     seen = 0
     while e is not None and seen < 30:
         seen += 1
+        ours = isinstance(e, ObserverFailure) or (isinstance(e, InjectedFault) and e.in_observer)
         tb = e.__traceback__
-        while tb is not None:
+        while tb is not None and not ours:
             if tb.tb_frame.f_code.co_name in OBSERVER_ENTRY:
                 return True
             tb = tb.tb_next
@@ -373,6 +427,17 @@ class Run:
     pass
 
 
+def preview(change):
+    """what a user interface does with a change before performing it"""
+    from rope.base import change as ch
+    change.get_description()
+    str(change)
+    change.get_changed_resources()
+    if isinstance(change, ch.ChangeSet):
+        for child in change.changes:
+            preview(child)
+
+
 def perform(project, op, handle, built=None):
     if op[0] == "do":
         c = built if built is not None else build_change(project, op[1])
@@ -385,7 +450,7 @@ def perform(project, op, handle, built=None):
         raise ValueError(op)
 
 
-def execute(scn, flt=None, stp=None, record_setup=False, obs=None):
+def execute(scn, flt=None, stp=None, record_setup=False, obs=None, obsfail=None, partial=False):
     """Runs the scenario's setup ops without faults, then its op under (flt, stp).
     Returns a Run (and, with record_setup, the list of Runs of the setup ops)."""
     from rope.base.project import Project
@@ -397,14 +462,35 @@ def execute(scn, flt=None, stp=None, record_setup=False, obs=None):
         fsc = FaultyFS()
         project = Project(root, fscommands=fsc, ropefolder=None, max_history_items=scn.get("limit", 100))
         hist = project.history
+        counter = CountingObserver()
+        project.add_observer(counter)
+        fsc.counter = counter
         ops = [(op, None, None, False) for op in scn.get("setup", [])] + [(scn["op"], flt, stp, True)]
         obs_for_test = obs
         last = None
+        # the change under test may be constructed and PREVIEWED (get_description, str,
+        # get_changed_resources, on the set and on its children) before set-up operation number `preview`
+        preview_at = scn.get("preview")
+        prebuilt = None
+        preview_mutated = None
         for idx, (op, f, s, is_test) in enumerate(ops):
+            if preview_at is not None and idx == min(preview_at, len(ops) - 1) and scn["op"][0] == "do" and prebuilt is None:
+                try:
+                    prebuilt = build_change(project, scn["op"][1])
+                    before = abstract_change(prebuilt)
+                    preview(prebuilt)
+                    after = abstract_change(prebuilt)
+                    if after != before:
+                        preview_mutated = "before %r after %r" % (before, after)
+                except Exception as e:
+                    prebuilt = None
+                    preview_mutated = None
             r = Run()
             r.op = op
             r.scenario = {"tree": scn["tree"], "limit": scn.get("limit", 100),
                           "setup": [o for (o, _, _, _) in ops[:idx]], "op": op}
+            if is_test and preview_at is not None:
+                r.scenario["preview"] = preview_at
             r.flt, r.stp = f, s
             r.limit = hist.max_undos
             r.pre_tree = snapshot(root)
@@ -415,17 +501,23 @@ def execute(scn, flt=None, stp=None, record_setup=False, obs=None):
             built = None
             r.change = None
             r.build_error = None
+            r.previewed = bool(is_test and prebuilt is not None)
+            r.preview_mutated = preview_mutated if is_test else None
             if op[0] == "do":
                 try:
-                    built = build_change(project, op[1])
+                    built = prebuilt if (is_test and prebuilt is not None) else build_change(project, op[1])
                     r.change = abstract_change(built)
                 except Exception as e:          # a spec that rope refuses to construct: not a case
                     r.build_error = repr(e)
             handle = taskhandle.TaskHandle("C10")
             stopper = Stopper(handle, s)
             handle.add_observer(stopper)
-            fsc.reset(armed=f, op=op[0], obs_armed=(obs_for_test if is_test else None))
+            fsc.reset(armed=f, op=op[0], obs_armed=(obs_for_test if is_test else None),
+                      partial=(partial and is_test))
+            counter.reset(at=(obsfail if is_test else None))
             r.obs = obs_for_test if is_test else None
+            r.obsfail = obsfail if is_test else None
+            r.partial = bool(partial and is_test)
             r.exc = None
             if r.build_error is None:
                 try:
@@ -441,6 +533,9 @@ def execute(scn, flt=None, stp=None, record_setup=False, obs=None):
             r.calls = fsc.n
             r.fired = fsc.fired
             r.fired_in_observer = fsc.fired_in_observer
+            r.fired_obs_index = fsc.fired_obs_index
+            r.truncated = fsc.truncated
+            r.n_obs = counter.n
             r.log = list(fsc.log)
             r.py_irrev = fsc.irrev
             r.removed = fsc.removed
@@ -451,6 +546,7 @@ def execute(scn, flt=None, stp=None, record_setup=False, obs=None):
             r.stopped_at = stopper.stopped_at
             r.built = built
             fsc.reset()
+            counter.reset()
             r.post_tree = snapshot(root)
             r.post_undo_objs = list(hist.undo_list)
             r.post_redo_objs = list(hist.redo_list)
@@ -543,6 +639,22 @@ def g_case(r, with_irrev=True):
                 g_bool(r.raised), g_list([g_N(c) for c in r.codes]), g_tree(r.post_tree),
                 g_list([g_change(c) for c in r.post_undo]), g_list([g_change(c) for c in r.post_redo]),
                 g_nat(r.calls), irrev))
+
+
+def model_obs_index(r):
+    """index of the observer notification that fails in the model: the harness's own observer, or the
+    notification during which an observer-issued read was failed"""
+    if getattr(r, "obsfail", None) is not None:
+        return r.obsfail
+    if getattr(r, "obs", None) is not None:
+        return r.fired_obs_index
+    return None
+
+
+def g_ocase(r):
+    o = model_obs_index(r)
+    return "{| oc_base := %s; oc_obs := %s; oc_atomic := %s |}" % (
+        g_case(r), g_opt(None if o is None else g_nat(o)), g_bool(not r.partial))
 
 
 HEADER = ("From Coq Require Import List NArith Bool.\nImport ListNotations.\n"
